@@ -377,6 +377,9 @@ func genParseText(r *rng, kind string, maxLen int) ([]byte, string) {
 			b.WriteString(pick(r, "", " ", "+") + string(randRune(r)))
 		}
 		return []byte(b.String()), "unicode"
+	case c < 17 && r.chance(0.12):
+		// degenerate inputs: nothing, only layout, only comments, a lone token
+		return []byte(pick(r, "", " ", "\n", "\t \n ", "//", "// c", "// c\n", "/**/", "/* c */", "/* c */ // d\n ", ";", ";;", "()", "[]", "{}", "let", "let;", ",", ".", "\x00", "\ufeff", "\ufeff1", "1", "a", "\"\"", "''", "' '", "->", "=", "1;", "1;2", ";1")), "degenerate"
 	case c < 17:
 		base := valid()
 		tail := pick(r, `"abc`, `"abc\`, "'abc", "/* abc", "/*", "/", "//", "// x", "/**", "/* *", "1+/*", "1 //", "\"\\", "a.", "a.b(", "[1,2", "{a:1", "{a:", "(((((", "1+", "-", "!", "->", "x->", "func f(", "let x=", "let", "if a then", "try 1 catch", "switch a case 1:", "\x00abc", "a\x00+", "\xff\xfe", "\xe2\x82", "1e", "1e+", "1..2", "²", "a²³", "a b c", "2a(b)c")
